@@ -115,6 +115,7 @@ fn xz_zero_block<const FREE: usize, const EXTRA: usize>() {
 //@ bound: zero-block .xz, 32 bytes; footer (crc, backward size, flags, magic), check id and trailing bytes symbolic
 #[cfg_attr(kani, kani::proof)]
 #[cfg_attr(kani, kani::stub(std::fmt::format, crate::verif_common::stub_format))]
+#[cfg_attr(kani, kani::stub(std::io::Error::is_interrupted, crate::verif_common::stub_not_interrupted))]
 pub fn xz0_footer_free() {
     xz_zero_block::<0, 0>()
 }
@@ -123,6 +124,7 @@ pub fn xz0_footer_free() {
 //@ bound: StreamHeader::parse on 12 fully symbolic bytes (12 or 11 available)
 #[cfg_attr(kani, kani::proof)]
 #[cfg_attr(kani, kani::stub(std::fmt::format, crate::verif_common::stub_format))]
+#[cfg_attr(kani, kani::stub(std::io::Error::is_interrupted, crate::verif_common::stub_not_interrupted))]
 pub fn xz_stream_header_any() {
     let mut t = Tape::<16>::new();
     let f: [u8; 12] = t.bytes::<12>();
@@ -159,6 +161,7 @@ pub fn xz_stream_header_any() {
 //@ bound: zero-block .xz, 32 bytes; index (record count, padding, crc) symbolic
 #[cfg_attr(kani, kani::proof)]
 #[cfg_attr(kani, kani::stub(std::fmt::format, crate::verif_common::stub_format))]
+#[cfg_attr(kani, kani::stub(std::io::Error::is_interrupted, crate::verif_common::stub_not_interrupted))]
 pub fn xz0_index_free() {
     xz_zero_block::<2, 0>()
 }
@@ -167,6 +170,7 @@ pub fn xz0_index_free() {
 //@ bound: zero-block .xz followed by one trailing byte (33 bytes); footer fields and check id symbolic
 #[cfg_attr(kani, kani::proof)]
 #[cfg_attr(kani, kani::stub(std::fmt::format, crate::verif_common::stub_format))]
+#[cfg_attr(kani, kani::stub(std::io::Error::is_interrupted, crate::verif_common::stub_not_interrupted))]
 pub fn xz0_trailing_byte() {
     xz_zero_block::<0, 1>()
 }
@@ -175,6 +179,7 @@ pub fn xz0_trailing_byte() {
 //@ bound: zero-block .xz followed by 4 bytes (stream padding / start of a second stream); footer fields symbolic
 #[cfg_attr(kani, kani::proof)]
 #[cfg_attr(kani, kani::stub(std::fmt::format, crate::verif_common::stub_format))]
+#[cfg_attr(kani, kani::stub(std::io::Error::is_interrupted, crate::verif_common::stub_not_interrupted))]
 pub fn xz0_trailing_four() {
     xz_zero_block::<0, 4>()
 }
